@@ -25,7 +25,8 @@ Inductive ev :=
 | Del (k : key) (delivered : bool)
 | Reload (oa od : list key)
 | Subscribe (oc oa od : list key)
-| Batch (items : list bev).   (* several changes committed together: they arrive in ONE watch response, in order *)
+| Batch (items : list bev)    (* several changes committed together: they arrive in ONE watch response, in order *)
+| GetFail.                    (* the snapshot Get of a pending (re)load fails or times out; the load retries *)
 
 (* what a listener is told *)
 Inductive call := CAdd (k : key) (v : val) | CDel (k : key).
@@ -55,6 +56,7 @@ Section Spec.
     | Reload _ _ => (fst st, snd st || fst st)
     | Subscribe _ _ _ => (true, true)
     | Batch _ => st
+    | GetFail => st
     end.
   Definition sync_state (h : list ev) : bool * bool := fold_left sync_step h (false, false).
   Definition synced (h : list ev) : bool := fst (sync_state h) && snd (sync_state h).
